@@ -1,5 +1,5 @@
 """C04 - fluxes non-negative, actual never exceeds potential (kind B, exploration)."""
-from .common import std_case, std_run, STATE_MEASURE  # noqa: F401
+from .common import std_case, std_run, hardpan_regime, HARDPAN_PROFILE, STATE_MEASURE  # noqa: F401
 from ..monitors import mon_c04
 from ..domain import HIGH_CCX_CROPS, CROPS
 
@@ -11,7 +11,7 @@ RULE = ("seeded swarm biased to the built-in crops with CCx > 0.96 under generou
         "mulches and partial wetting; per day all nine fluxes are checked for sign, Es <= EsPot, Tr <= TrPot and the off-season "
         "zeros. Non-trivial run: the canopy closed (CC > 0.966) or the field was ponded or mulched on some in-season day; "
         "distinct = distinct configuration signatures")
-PROFILE = {"crops": HIGH_CCX_CROPS * 3 + CROPS, "irr_methods": [1, 1, 2, 4, 5, 0, 3], "bunds": 0.35, "mulch_p": 0.5, "field_p": 0.6,
+PROFILE = {"reactive_p": 0.3, "crops": HIGH_CCX_CROPS * 3 + CROPS, "irr_methods": [1, 1, 2, 4, 5, 0, 3], "bunds": 0.35, "mulch_p": 0.5, "field_p": 0.6,
            "events_per_year": 1.0, "sensible_planting_p": 0.9}
 
 
@@ -24,6 +24,9 @@ def gen_case(rng, tier, idx):
                     z_bund_choices=[0.02, 0.05, 0.15], off_season_p=0.7, custom_soil_p=0.0, archetypes=["tropical", "temperate", "warm"],
                     event_kinds=["wet_spell", "storm", "et0_spike"], events_per_year=3.0, irr_methods=[0, 1, 2, 5, 5], n_seasons=[1, 2, 3],
                     program_param_p=0.5, crop_override_p=0.6)
+    if idx % 4 == 2:
+        # permeable top soil over a nearly impermeable porous pan, frequent rain: perched water, back-up, redistribution
+        return hardpan_regime(rng, std_case(rng, dict(PROFILE, **HARDPAN_PROFILE)))
     case = std_case(rng, prof)
     if idx % 4 == 1 and case["spec"]["irr"]["method"] != 0:
         case["spec"]["irr"]["kwargs"]["WetSurf"] = rng.choice([10, 30, 60])
